@@ -5,7 +5,7 @@ from .engine import Job
 
 def jobs_c13(prop, tier, seed):
     rng = random.Random(seed * 104729 + 13)
-    s = 1 if tier == "quick" else 8
+    s = 1 if tier == "quick" else 25
     J = []
     for cfg in ("base", "dbg"):
         execs = []
